@@ -813,5 +813,42 @@ func C20(c *Ctx) error {
 		}
 	}
 
+	// "emitted on request": the option is a boolean flag; every spelling a boolean flag accepts asks
+	// for (or declines) the mock
+	{
+		f := &ir.File{Name: "opt/api.proto", Package: "opt.v1", GoPackage: "example.com/gen/opt/v1;optv1",
+			Messages: []*ir.Message{{Name: "Q", Fields: []*ir.Field{{Name: "q", Number: 1, Kind: "string"}}}, {Name: "A", Fields: []*ir.Field{{Name: "name", Number: 1, Kind: "string"}, {Name: "ok", Number: 2, Kind: "bool"}}}},
+			Services: []*ir.Service{{Name: "Opt", Methods: []*ir.Method{{Name: "Get", Input: ".opt.v1.Q", Output: ".opt.v1.A", Config: &ir.HTTPConfig{Path: "/g", Method: "POST"}}}}}}
+		base := &ir.Request{Files: []*ir.File{f}, Generate: []string{f.Name}}
+		for _, sp := range []struct {
+			param string
+			want  bool
+		}{{"generate_mock=true", true}, {"generate_mock=1", true}, {"generate_mock=t", true}, {"generate_mock=T", true}, {"generate_mock=TRUE", true}, {"generate_mock=True", true},
+			{"generate_mock=false", false}, {"generate_mock=0", false}, {"generate_mock=F", false}, {"", false},
+			{"paths=source_relative,generate_mock=1", true}} {
+			rq := base.Clone()
+			rq.Parameter = sp.param
+			pr, err := plug.Run(plug.GoHTTP, rq, nil)
+			if err != nil {
+				return err
+			}
+			res.Case(map[string]any{"option_spelling": sp.param}, true)
+			res.Count("cell:option_spelling")
+			got := false
+			for n := range pr.Files {
+				if strings.HasSuffix(n, "_http_mock.pb.go") {
+					got = true
+				}
+			}
+			replay := map[string]any{"schema": base, "parameter": sp.param, "files": pr.Order, "class": answerClass(pr), "stderr": firstLines(pr.Stderr, 3)}
+			if !pr.OK() {
+				res.Violation("option_spelling:error", fmt.Sprintf("go-http answers %s for parameter %q", answerClass(pr), sp.param), replay)
+			} else if got != sp.want {
+				res.Violation("option_spelling:mock_emitted_mismatch", fmt.Sprintf("parameter %q: mock file emitted=%v, a boolean flag means %v", sp.param, got, sp.want), replay)
+			} else {
+				res.CorrAgree()
+			}
+		}
+	}
 	return nil
 }
